@@ -880,8 +880,57 @@ func (x *Exec) step(fr *Frame, st *State, in ssa.Instruction) {
 		st.regs[t] = c
 	case *ssa.Phi:
 		// handled on block entry
-	case *ssa.Range, *ssa.Next:
-		x.abort("range over map/string is not modelled")
+	case *ssa.Range:
+		// modelled only for units whose contract opts in with the flag `ranges` (the obligations of
+		// the loop body then need invariants); otherwise the path is aborted and reported as such
+		if x.contract == nil || !x.contract.Flags["ranges"] {
+			x.abort("range over map/string is not modelled")
+		}
+		// the iterator is represented by the collection it ranges over
+		v := x.val(st, t.X)
+		v.Typ = t.X.Type()
+		st.regs[t] = v
+	case *ssa.Next:
+		// Nondeterministic model of one step of a range loop (sound for partial correctness; the order
+		// of visits and "every element is visited exactly once" are NOT modelled):
+		//   map:    ok is arbitrary; if ok, the key is some key of the current domain and the value is m[key]
+		//   string: ok is arbitrary; if ok, the index is some valid index and the rune is the byte there when it is ASCII
+		it := x.val(st, t.Iter)
+		tup := t.Type().(*types.Tuple)
+		ok := x.enc.Fresh("range.ok", SBool)
+		parts := []Val{{K: VTerm, T: ok, Typ: types.Typ[types.Bool]}}
+		if t.IsString {
+			idx := x.enc.Fresh("range.idx", SInt)
+			r := x.enc.Fresh("range.rune", SInt)
+			ln := app(SInt, "slen", it.T)
+			st.assume(Implies(ok, And(app(SBool, "<=", IntLit(0), idx), app(SBool, "<", idx, ln))))
+			st.assume(And(app(SBool, "<=", IntLit(0), r), app(SBool, "<=", r, IntLit(0x10FFFF))))
+			c := app(SInt, "sat", it.T, idx)
+			st.assume(Implies(And(ok, app(SBool, "<", c, IntLit(128))), Eq(r, c)))
+			parts = append(parts, Val{K: VTerm, T: idx, Typ: types.Typ[types.Int]}, Val{K: VTerm, T: r, Typ: types.Typ[types.Rune]})
+		} else {
+			mt, isMap := types.Unalias(it.Typ).Underlying().(*types.Map)
+			if !isMap {
+				x.abort("range over %s is not modelled", it.Typ)
+			}
+			x.mapAccessCheck(fr, st, t, it, false)
+			kv, inv := x.enc.freshVal(mt.Key(), "range.key")
+			kv.Typ = mt.Key()
+			st.assumeAll(inv)
+			st.assume(Implies(ok, And(Not(Eq(it.T, TNull)), st.mapDom(mt, it.T, kv.T))))
+			vv := st.mapGet(mt, it.T, kv.T)
+			vv.Typ = mt.Elem()
+			st.assumeLoaded(mt.Elem(), st.mapRaw(mt, it.T, kv.T))
+			parts = append(parts, kv, vv)
+		}
+		for i := range parts {
+			if i < tup.Len() {
+				if b, isB := tup.At(i).Type().(*types.Basic); isB && b.Kind() == types.Invalid {
+					parts[i] = Val{K: VTerm, T: IntLit(0), Typ: types.Typ[types.Int]} // component not used by the program
+				}
+			}
+		}
+		st.regs[t] = Val{K: VTuple, Parts: parts, Typ: t.Type()}
 	case *ssa.Select, *ssa.Send:
 		x.abort("channel operation")
 	default:
